@@ -79,6 +79,7 @@ pub async fn run_scripted(case: &Value, keep: bool) -> RunOut {
         .map(|a| a.iter().map(Resp::from_json).collect())
         .unwrap_or_default();
     let no_provider = get_bool(case, "no_provider").unwrap_or(false);
+    crate::provider::REPEAT_LAST.store(case["repeat_last"].as_bool().unwrap_or(false), std::sync::atomic::Ordering::SeqCst);
     let provider = Provider::start(script).await;
     let endpoint = if get_bool(case, "dead_endpoint").unwrap_or(false) {
         "http://127.0.0.1:9/v1/responses".to_string()
